@@ -31,6 +31,9 @@ func cmdDump(args []string) int {
 		// the reference for renamed functions: fingerprints of every function of the tree
 		b, _ := json.MarshalIndent(p.Fingerprints(), "", " ")
 		fmt.Println(string(b))
+	case "fields":
+		b, _ := json.MarshalIndent(p.StructFingerprints(), "", " ")
+		fmt.Println(string(b))
 	case "mapranges":
 		p.ForEachNode(func(pk *packages.Package, file *ast.File, stack []ast.Node, n ast.Node) bool {
 			if rs, ok := n.(*ast.RangeStmt); ok {
